@@ -20,6 +20,12 @@ type SV struct {
 	Fn   *types.Func // function designator (only as callee)
 	Pkg  *types.Package
 	IsTy bool
+	Low  *Lowered // a pointer known only through (is-nil, pointee value)
+}
+
+type Lowered struct {
+	isNil, val *Term
+	elem       types.Type
 }
 
 type SpecEnv struct {
@@ -241,6 +247,9 @@ func (e *SpecEnv) unary(n *EUnary) SV {
 		return SV{T: mk(SInt, "-", e.val(v)), Ty: v.Ty}
 	case "*":
 		v := e.tr(n.X)
+		if v.Low != nil {
+			return SV{T: v.Low.val, Ty: v.Low.elem}
+		}
 		pt, ok := v.Ty.Underlying().(*types.Pointer)
 		if !ok {
 			sfail("deref of non-pointer")
@@ -283,6 +292,12 @@ func (e *SpecEnv) binary(n *EBinary) SV {
 	case "in":
 		k := e.tr(n.X)
 		m := e.tr(n.Y)
+		if m.Ty == nil {
+			if m.T != nil && m.T.Sort.IsArray() && m.T.Sort.V == SBool {
+				return SV{T: Select(m.T, e.val(k)), Ty: tBool}
+			}
+			sfail("'in' on untyped value")
+		}
 		switch mt := m.Ty.Underlying().(type) {
 		case *types.Map:
 			return SV{T: e.h.mapHas(e.st, mt, e.val(m), e.val(k)), Ty: tBool}
@@ -302,6 +317,20 @@ func (e *SpecEnv) binary(n *EBinary) SV {
 	case "==", "!=":
 		a := e.tr(n.X)
 		b := e.tr(n.Y)
+		if a.Low != nil || b.Low != nil {
+			lo, other := a, n.Y
+			if a.Low == nil {
+				lo, other = b, n.X
+			}
+			if _, isNil := other.(*ENil); !isNil {
+				sfail("a function-value argument pointer may only be compared with nil")
+			}
+			r := lo.Low.isNil
+			if n.Op == "!=" {
+				r = Not(r)
+			}
+			return SV{T: r, Ty: tBool}
+		}
 		at, bt := e.val(a), e.val(b)
 		at, bt = e.coerceNil(at, a, bt, b)
 		if at.Sort != bt.Sort {
@@ -613,6 +642,49 @@ func (e *SpecEnv) call(n *ECall) SV {
 					p = SlcArr(p)
 				}
 				return SV{T: Or(IsNil(p), Lt(PObjID(p), e.h.nextID(e.st))), Ty: tBool}
+			case "iter", "idx", "visited":
+				if e.ft == nil || len(n.Args) != 1 {
+					sfail("%s(n) needs a loop ordinal", id.Name)
+				}
+				lit, ok := n.Args[0].(*EInt)
+				if !ok {
+					sfail("%s(n): n must be a literal", id.Name)
+				}
+				var ord int
+				fmt.Sscanf(lit.Val, "%d", &ord)
+				l := e.ft.loopByOrdinal(ord)
+				if l == nil {
+					sfail("no loop %d", ord)
+				}
+				switch id.Name {
+				case "iter":
+					if l.RangeIdx == nil {
+						sfail("loop %d is not an index range loop", ord)
+					}
+					return SV{T: Add(e.ft.localGet(e.st, l.RangeIdx), IntLit(1)), Ty: tInt}
+				case "idx":
+					if l.RangeIdx == nil {
+						sfail("loop %d is not an index range loop", ord)
+					}
+					return SV{T: e.ft.localGet(e.st, l.RangeIdx), Ty: tInt}
+				default:
+					if l.RangeIter == nil {
+						sfail("loop %d is not a map range loop", ord)
+					}
+					return SV{T: e.ft.iterVisited(e.st, l.RangeIter)}
+				}
+			case "apply":
+				// apply(f, lowered args...): application of a function value on already lowered arguments
+				f := e.tr(n.Args[0])
+				sig, ok := f.Ty.Underlying().(*types.Signature)
+				if !ok {
+					sfail("apply: first argument is not a function value")
+				}
+				var low []*Term
+				for _, a := range n.Args[1:] {
+					low = append(low, e.val(e.tr(a)))
+				}
+				return SV{T: e.h.fnAppLowered(e.val(f), sig, low), Ty: sig.Results().At(0).Type()}
 			case "dom":
 				x := e.tr(n.Args[0])
 				mt, ok := x.Ty.Underlying().(*types.Map)
@@ -871,30 +943,39 @@ func (h *HeapCtx) pureApp(full string, args []*Term, rty types.Type) *Term {
 // to (isnil, pointee) so the result depends on the pointed-to value, not the address.
 func (h *HeapCtx) fnApp(st *State, fn *Term, sig *types.Signature, args []*Term) *Term {
 	var lowered []*Term
-	var sorts []*Sort
-	lowered = append(lowered, fn)
-	sorts = append(sorts, SFn)
-	name := "app"
 	for i, a := range args {
-		pt := sig.Params().At(i).Type()
-		if p, ok := pt.Underlying().(*types.Pointer); ok {
-			if _, isb := p.Elem().Underlying().(*types.Basic); isb {
-				isn := IsNil(a)
-				pv := Ite(isn, h.w.zero(h.d, p.Elem()), h.readAt(st, a, p.Elem()))
-				lowered = append(lowered, isn, pv)
-				sorts = append(sorts, SBool, pv.Sort)
-				name += "_p" + pv.Sort.Mangle()
-				continue
-			}
+		if el := loweredElem(sig.Params().At(i).Type()); el != nil {
+			isn := IsNil(a)
+			pv := Ite(isn, h.w.zero(h.d, el), h.readAt(st, a, el))
+			lowered = append(lowered, isn, pv)
+			continue
 		}
 		lowered = append(lowered, a)
+	}
+	return h.fnAppLowered(fn, sig, lowered)
+}
+
+// loweredElem: pointee type if parameter type t is a pointer to a basic type (passed by value to app)
+func loweredElem(t types.Type) types.Type {
+	if p, ok := t.Underlying().(*types.Pointer); ok {
+		if _, isb := p.Elem().Underlying().(*types.Basic); isb {
+			return p.Elem()
+		}
+	}
+	return nil
+}
+
+func (h *HeapCtx) fnAppLowered(fn *Term, sig *types.Signature, lowered []*Term) *Term {
+	sorts := []*Sort{SFn}
+	name := "app"
+	for _, a := range lowered {
 		sorts = append(sorts, a.Sort)
 		name += "_" + a.Sort.Mangle()
 	}
 	rs := h.w.sortOf(h.d, sig.Results().At(0).Type())
 	name += "__" + rs.Mangle()
 	h.d.Fun(name, sorts, rs)
-	return mk(rs, name, lowered...)
+	return mk(rs, name, append([]*Term{fn}, lowered...)...)
 }
 
 // ---- modifies items ----
